@@ -87,6 +87,21 @@ def gen(tier, rng):
                         cases.append(rz.resize_case(pt, sw, sh, dw, dh, alg=alg, flt=flt, m=m, alpha=rz.pick(n, 204, [True, False, False, False]), box=box, Q=1, cpu=rz.pick(n, 120, rz.CPUS),
                                                     src_c={"g": "rand", "seed": n}, src_lay=lay_with_guard(slay, 1), dst_lay=lay_with_guard(dlay, 1),
                                                     api="typed" if typed else "dyn", log=("dst",), chk=chk, g=g, sent=sent))
+    # thorough: seeded random calls through random container pairs
+    if tier != "quick":
+        for i in range(6000):
+            kw = rz.random_resize_kw(rng)
+            typed = rng.random() < 0.5
+            slay, dlay = rng.choice(TYPED_PAIRS if typed else DYN_PAIRS)
+            g += 1
+            seed = rng.randint(1, 10 ** 9)
+            threads = rng.choice([1, 1, 1, 4])
+            for rep, sent in enumerate((seed % 9973, seed % 7919 + 5)):
+                chk = ["pipeline", "ret_ok", "outside", "srcsame"] + (["memo_exact"] if rep else [])
+                cases.append(rz.resize_case(kw["pt"], kw["sw"], kw["sh"], kw["dw"], kw["dh"], alg=kw["alg"], flt=kw["flt"], m=kw["m"], alpha=kw["alpha"],
+                                            box=kw["box"], Q=kw["Q"], cpu=kw["cpu"], src_c={"g": "rand", "seed": seed, "flo": 0.0, "fhi": 1.0},
+                                            src_lay=lay_with_guard(slay, 1) if slay else None, dst_lay=lay_with_guard(dlay, 1) if dlay else {"k": "image"},
+                                            api="typed" if typed else "dyn", threads=threads, log=("dst",), chk=chk, g=g, sent=sent))
     # errors and zero sizes leave the destination alone
     for pt in ("U8", "U8x4", "U16x3", "F32x2"):
         for (alg, flt, m) in algs[:7]:
